@@ -281,7 +281,7 @@ func checkTolPair(r *vk.Run, p *pair, tree *vnode, real cmp.Message, placement s
 	var gXY, gYX, gXX, gYY bool
 	panicked, what := vk.Recover(func() {
 		gXY, gYX = real(x, y), real(y, x)
-		gXX, gYY = real(x, clone(x)), real(y, clone(y))
+		gXX, gYY = real(x, x), real(y, y)
 	})
 	r.Eval(4)
 	r.Count("message/pairs", 1)
@@ -302,13 +302,25 @@ func checkTolPair(r *vk.Run, p *pair, tree *vnode, real cmp.Message, placement s
 	if canon(x) != cx || canon(y) != cy {
 		r.Violation(pre+"mutates-input", "the comparer changed an argument", replay)
 	}
-	// reflexive (a message against its own deep copy)
+	// reflexive (a message against itself: proto.Clone is not faithful for -0 in implicit-presence fields, so a
+	// deep copy is not used here)
 	nonReflexive := false
 	for k, g := range []bool{gXX, gYY} {
 		if !g {
 			m := []proto.Message{x, y}[k]
 			nonReflexive = true
-			r.Violation(pre+"reflexive/msg-"+specialContent(m), fmt.Sprintf("cmp.Equal(%s)(m, clone(m)) = false for m=%s", tree, vk.JSON(m)), replay)
+			// attribute to the tolerance leaf that is not reflexive on its own, if there is one
+			attributed := false
+			for _, leaf := range tree.leaves() {
+				var gl bool
+				if pk, _ := vk.Recover(func() { gl = cmp.Equal(leaf.real())(m, m) }); !pk && !gl {
+					attributed = true
+					r.Violation("C16/"+leaf.name()+"/reflexive/msg-"+specialContent(m), fmt.Sprintf("cmp.Equal(%s)(m, m) = false for m=%s", leaf, vk.JSON(m)), replay)
+				}
+			}
+			if !attributed {
+				r.Violation(pre+"reflexive/msg-"+specialContent(m), fmt.Sprintf("cmp.Equal(%s)(m, m) = false for m=%s", tree, vk.JSON(m)), replay)
+			}
 		}
 	}
 	if gXY != gYX {
@@ -355,7 +367,7 @@ func checkTolPair(r *vk.Run, p *pair, tree *vnode, real cmp.Message, placement s
 			return false
 		}
 		var g1, g2, ga, gb bool
-		if pk, _ := vk.Recover(func() { g1, g2, ga, gb = real(a, b), real(b, a), real(a, clone(a)), real(b, clone(b)) }); pk || !ga || !gb {
+		if pk, _ := vk.Recover(func() { g1, g2, ga, gb = real(a, b), real(b, a), real(a, a), real(b, b) }); pk || !ga || !gb {
 			return false
 		}
 		return g1 != w || g2 != w
@@ -389,8 +401,7 @@ func messageLevelDurationP(r *vk.Run) {
 		x.ProtoReflect().Mutable(allFields.ByName("default_well_known"))
 		y := clone(x)
 		ss, sy := sitesOf(x, 3, isKindSite("dur")), sitesOf(y, 3, isKindSite("dur"))
-		k := rng.Intn(ss)
-		_ = k
+		k := rng.Intn(len(ss))
 		dx := int64(rng.Range(-100, 100)) * 500_000_000
 		dy := dx
 		if rng.Bool() {
@@ -402,7 +413,7 @@ func messageLevelDurationP(r *vk.Run) {
 		real := cmp.Equal(cmp.DurationValueWithinP(pc))
 		var gXY, gYX, gXX bool
 		replay := map[string]any{"comparer": fmt.Sprintf("cmp.Equal(DurationValueWithinP(%v))", pc), "x": vk.JSON(x), "y": vk.JSON(y)}
-		pk, what := vk.Recover(func() { gXY, gYX, gXX = real(x, y), real(y, x), real(x, clone(x)) })
+		pk, what := vk.Recover(func() { gXY, gYX, gXX = real(x, y), real(y, x), real(x, x) })
 		r.Eval(3)
 		r.Count("message/"+name+"/cases", 1)
 		r.Distinct("mdp|" + fmt.Sprint(pc) + canon(x) + canon(y))
@@ -411,7 +422,7 @@ func messageLevelDurationP(r *vk.Run) {
 			continue
 		}
 		if !gXX {
-			r.Violation("C16/"+name+"/reflexive/msg", fmt.Sprintf("cmp.Equal(DurationValueWithinP(%v))(m, clone(m)) = false for m=%s", pc, vk.JSON(x)), replay)
+			r.Violation("C16/"+name+"/reflexive/msg", fmt.Sprintf("cmp.Equal(DurationValueWithinP(%v))(m, m) = false for m=%s", pc, vk.JSON(x)), replay)
 		}
 		if gXY != gYX {
 			r.Violation("C16/"+name+"/symmetric/msg", fmt.Sprintf("cmp.Equal(DurationValueWithinP(%v))(x,y)=%v but (y,x)=%v\nx=%s\ny=%s", pc, gXY, gYX, vk.JSON(x), vk.JSON(y)), replay)
